@@ -79,6 +79,7 @@ EVERY = ScriptFlag(0)
 for _f in ScriptFlag:
     EVERY |= _f
 STANDARD = EVERY & ~ScriptFlag.SIGPUSHONLY
+NO_DERSIG = ScriptFlag.P2SH | ScriptFlag.WITNESS | ScriptFlag.TAPROOT | ScriptFlag.NULLDUMMY
 FLAG_SETS = [("consensus", None, 134677), ("every", EVERY, EVERY.value), ("standard", STANDARD, STANDARD.value)]
 
 # shape -> (weight, kind).  kind: how the finalizer is expected to close it
@@ -776,6 +777,104 @@ def sig_mutations(sig: bytes, taproot: bool):
     return out
 
 
+def keyenc_cases(rng):
+    """[(line, engine verdict, name)]: `<key> CHECKSIG` (bare and in p2wsh) and a bare 1-of-2 multisig whose signing key is
+    written in every SEC spelling -- compressed, uncompressed, hybrid 06/07 with the right and the wrong parity, off-curve
+    04 / hybrid -- correctly signed, under no flag, the default set and every flag: the composed checker's KEY parser and
+    `CheckPubKeyEncoding` (STRICTENC, WITNESS_PUBKEYTYPE) against btclib's engine"""
+    from btclib.curves.sec_point import point_from_octets
+    from btclib.hashes import sha256 as _sha256
+    P_FIELD = 2**256 - 2**32 - 977
+    q, q2 = rng.randrange(1, N_SECP), rng.randrange(1, N_SECP)
+    x, y = point_from_octets(pub_keyinfo_from_prv_key(q)[0])
+    xb, yb = x.to_bytes(32, "big"), y.to_bytes(32, "big")
+    encs = {"compressed": bytes([2 + (y & 1)]) + xb, "uncompressed": b"\x04" + xb + yb,
+            "hybrid": bytes([6 + (y & 1)]) + xb + yb, "hybrid_bad_parity": bytes([7 - (y & 1)]) + xb + yb,
+            "uncompressed_off_curve": b"\x04" + xb + ((y + 1) % P_FIELD).to_bytes(32, "big"),
+            "hybrid_off_curve": bytes([6 + ((y + 1) & 1)]) + xb + ((y + 1) % P_FIELD).to_bytes(32, "big"),
+            "prefix_05": b"\x05" + xb + yb}
+    other = pub_keyinfo_from_prv_key(q2)[0]
+    push = lambda b: bytes([len(b)]) + b  # noqa: E731
+    amount = 60_000
+    cases = []
+    for name, key in encs.items():
+        for tmpl in ("pk", "wsh_pk", "multi"):
+            script = push(key) + b"\xac" if tmpl != "multi" else b"\x51" + push(key) + push(other) + b"\x52\xae"
+            spk = b"\x00\x20" + _sha256(script) if tmpl == "wsh_pk" else script
+            pout = TxOut(amount, ScriptPubKey(spk, check_validity=False), check_validity=False)
+            tx = Tx(2, 0, [TxIn(OutPoint(common.rand_bytes(rng, 32), 1), b"", 0xFFFFFFFE)],
+                    [TxOut(amount - 500, ScriptPubKey(b"\x51", check_validity=False), check_validity=False)],
+                    check_validity=False)
+            if tmpl == "wsh_pk":
+                m = sig_hash.segwit_v0(script, tx, 0, 1, amount)
+            else:
+                m = sig_hash.legacy(script, tx, 0, 1)
+            sg = dsa.sign_(m, q).serialize() + b"\x01"
+            if tmpl == "pk":
+                tx.vin[0].script_sig = push(sg)
+            elif tmpl == "multi":
+                tx.vin[0].script_sig = b"\x00" + push(sg)
+            else:
+                tx.vin[0].script_witness = Witness([sg, script])
+            td = tx_dict(tx)
+            for fname, flags, mask in (("none", ScriptFlag(0), 0), FLAG_SETS[0], FLAG_SETS[1]):
+                cases.append((f"verdict {mask} 0 {tok_tx(td)} {outs_tok([pout])}",
+                              engine_verdict([pout], tx, 0, flags).split(" ")[0], f"{name}.{tmpl}.{fname}"))
+    return cases
+
+
+def tapext_cases(rng):
+    """[(line, engine verdict, name)]: taproot paths no library flow reaches -- a key path spend SIGNED WITH an annex (the
+    message commits to it), a tapscript with an executed OP_CODESEPARATOR (the second signature commits to its
+    position), and the same with the wrong annex / position"""
+    from btclib.script.taproot import output_prvkey_from_merkle_root, output_pubkey_from_merkle_root
+    q, k1, k2 = (rng.randrange(1, N_SECP) for _ in range(3))
+    xonly = lambda d: pub_keyinfo_from_prv_key(d)[0][1:]  # noqa: E731
+    amount = 70_000
+    cases = []
+
+    def emit(name, pout, tx):
+        td = tx_dict(tx)
+        for fname, flags, mask in (FLAG_SETS[0], FLAG_SETS[1]):
+            cases.append((f"verdict {mask} 0 {tok_tx(td)} {outs_tok([pout])}",
+                          engine_verdict([pout], tx, 0, flags).split(" ")[0], f"{name}.{fname}"))
+
+    def mk_tx():
+        return Tx(2, rng.choice([0, 500]), [TxIn(OutPoint(common.rand_bytes(rng, 32), 0), b"", 0xFFFFFFFD)],
+                  [TxOut(amount - 700, ScriptPubKey(b"\x51", check_validity=False), check_validity=False),
+                   TxOut(100, ScriptPubKey(b"\x52", check_validity=False), check_validity=False)], check_validity=False)
+    # 1. key path with an annex
+    okey, _par = output_pubkey_from_merkle_root(xonly(q), b"")
+    pout = TxOut(amount, ScriptPubKey(b"\x51\x20" + okey, check_validity=False), check_validity=False)
+    tweaked = output_prvkey_from_merkle_root(q, b"")
+    for ht in (0, 1, 0x83):
+        annex = b"\x50" + common.rand_bytes(rng, rng.choice([0, 1, 40]))
+        tx = mk_tx()
+        m = sig_hash.taproot(tx, 0, [pout], ht, 0, annex, b"")
+        sg = ssa.sign_(m, tweaked).serialize() + (bytes([ht]) if ht else b"")
+        tx.vin[0].script_witness = Witness([sg, annex])
+        emit(f"annex_signed.ht{ht}", pout, tx)
+        t2 = copy.deepcopy(tx)
+        t2.vin[0].script_witness = Witness([sg, annex + b"\x00"])
+        emit(f"annex_changed.ht{ht}", pout, t2)
+    # 2. tapscript with an executed OP_CODESEPARATOR
+    script = b"\x20" + xonly(k1) + b"\xad\xab\x20" + xonly(k2) + b"\xac"
+    lh = taproot.leaf_hash(0xC0, script)
+    okey, par = output_pubkey_from_merkle_root(xonly(q), lh)
+    pout = TxOut(amount, ScriptPubKey(b"\x51\x20" + okey, check_validity=False), check_validity=False)
+    control = bytes([0xC0 + par]) + xonly(q)
+    for ht in (0, 2):
+        for pos2, name in ((2, "codesep_right"), (0xFFFFFFFF, "codesep_unset"), (1, "codesep_wrong")):
+            tx = mk_tx()
+            ext = lambda pos: lh + b"\x00" + pos.to_bytes(4, "little")  # noqa: E731
+            suffix = bytes([ht]) if ht else b""
+            s1 = ssa.sign_(sig_hash.taproot(tx, 0, [pout], ht, 1, b"", ext(0xFFFFFFFF)), k1).serialize() + suffix
+            s2 = ssa.sign_(sig_hash.taproot(tx, 0, [pout], ht, 1, b"", ext(pos2)), k2).serialize() + suffix
+            tx.vin[0].script_witness = Witness([s2, s1, script, control])
+            emit(f"{name}.ht{ht}", pout, tx)
+    return cases
+
+
 def mutsig_cases(flow: Flow, rng, per_input=3):
     """[(line, engine verdict)]: one signature element of a finished input replaced (or an annex appended); the composed
     Lean checker's parsing / hash-type / size / annex paths against btclib's engine, under the default and every flag"""
@@ -810,9 +909,9 @@ def mutsig_cases(flow: Flow, rng, per_input=3):
             else:
                 t2.vin[i].script_sig = new_ss
             td = tx_dict(t2)
-            for fname, flags, mask in (FLAG_SETS[0], FLAG_SETS[1]):
+            for fname, flags, mask in (FLAG_SETS[0], FLAG_SETS[1], ("no_dersig", NO_DERSIG, NO_DERSIG.value)):
                 cases.append((f"verdict {mask} {i} {tok_tx(td)} {outs_tok(flow.pouts)}",
-                              engine_verdict(flow.pouts, t2, i, flags).split(" ")[0], name))
+                              engine_verdict(flow.pouts, t2, i, flags).split(" ")[0], name + "." + fname))
     return cases
 
 
@@ -937,6 +1036,18 @@ def run(ctx):
     ctx.correspond("c10.verdict", EXE, verdict_cases, nontrivial=lambda ln, out: True)
     ctx.correspond("c10.tamper.verdict", EXE, tamper_verdict, nontrivial=lambda ln, out: True)
     ctx.correspond("c10.mutsig.verdict", EXE, mutsig, nontrivial=lambda ln, out: True)
+    kc = []
+    for _ in range(ctx.n(1, 12)):
+        for ln, v, name in keyenc_cases(rng):
+            kc.append((ln, v))
+            ctx.count("keyenc", name + ":" + v)
+    ctx.correspond("c10.keyenc.verdict", EXE, kc, nontrivial=lambda ln, out: True)
+    tc = []
+    for _ in range(ctx.n(1, 12)):
+        for ln, v, name in tapext_cases(rng):
+            tc.append((ln, v))
+            ctx.count("tapext", name + ":" + v)
+    ctx.correspond("c10.tapext.verdict", EXE, tc, nontrivial=lambda ln, out: True)
     # BIP370 lock-time sources of a v2 psbt, through sign / finalize / extract
     H1, H2, T1, T2 = 650_000, 700_123, 1_600_000_000, 1_700_000_123
     lock_specs = []
